@@ -56,6 +56,17 @@ impl Fx for [u8; 3] {
 pub fn fx_from<T: Fx>(b: &[u8]) -> T {
     *bytemuck::checked::try_from_bytes::<T>(b).expect("generator produced an invalid bit pattern")
 }
+thread_local! {
+    /// number of fixed-size values handed out by SHARED accessors whose bytes are not a valid bit pattern of their type
+    pub static INVALID: std::cell::Cell<i128> = const { std::cell::Cell::new(0) };
+}
+/// a value reached through a shared view: its raw bytes must pass the type's own validity check
+pub fn fx_seen<T: Fx>(t: &T) {
+    let b = bytemuck::bytes_of(t);
+    if bytemuck::checked::try_from_bytes::<T>(b).is_err() {
+        INVALID.with(|c| c.set(c.get() + 1));
+    }
+}
 pub fn fx_push_bytes<T: Fx>(t: &T, out: &mut Vec<i128>) {
     let b = bytemuck::bytes_of(t);
     out.push(b.len() as i128);
@@ -291,6 +302,7 @@ impl<T: Fx, L: Lw> Node for List<T, L> {
     fn scan(p: &Self::Ptr, _input: (usize, usize), out: &mut Vec<i128>) -> Result<()> {
         out.push(p.len() as i128);
         for item in p.iter() {
+            fx_seen(item);
             fx_push_bytes(item, out);
         }
         Ok(())
@@ -577,6 +589,24 @@ where
             push_bytes(&b, out);
         }
     }
+    fn scan(p: &Self::Ptr, _input: (usize, usize), out: &mut Vec<i128>) -> Result<()> {
+        // every shared accessor: iteration, by index, by key
+        out.push(p.len() as i128);
+        for (k, v) in p.iter() {
+            fx_seen(k);
+            fx_seen(v);
+        }
+        for i in 0..p.len().min(64) {
+            if let Some((k, v)) = p.get_by_index(i) {
+                fx_seen(k);
+                fx_seen(v);
+                if let Some(v2) = p.get(k) {
+                    fx_seen(v2);
+                }
+            }
+        }
+        Ok(())
+    }
     fn apply<'p, 't, P>(w: &mut ExclusiveWrapper<'p, 't, Self::Ptr, P>, c: &mut Cur, out: &mut Vec<i128>) -> Result<()>
     where
         ExclusiveWrapper<'p, 't, Self::Ptr, P>: ExclusiveRecurse,
@@ -636,6 +666,15 @@ where
         for t in o {
             fx_push_bytes(t, out);
         }
+    }
+    fn scan(p: &Self::Ptr, _input: (usize, usize), out: &mut Vec<i128>) -> Result<()> {
+        out.push(p.len() as i128);
+        for i in 0..p.len().min(64) {
+            if let Some(t) = p.get_by_index(i) {
+                fx_seen(t);
+            }
+        }
+        Ok(())
     }
     fn apply<'p, 't, P>(w: &mut ExclusiveWrapper<'p, 't, Self::Ptr, P>, c: &mut Cur, out: &mut Vec<i128>) -> Result<()>
     where
